@@ -366,7 +366,7 @@ def rule_x3(ctx):
                     best = n
         return best
     pos = (_stmt_of(f, c).lineno, _stmt_of(f, c).col_offset)
-    for a in c.args[:2]:
+    for a in ctx.p.positional_args(c)[:2]:
         e = a
         seen = 0
         while seen < 8:
@@ -424,11 +424,12 @@ def rule_pa1(ctx):
         for n in ast.walk(f.node):
             if isinstance(n, ast.Assign) and isinstance(n.value, ast.Call) \
                     and dotted(n.value.func) == fname \
-                    and len(n.value.args) >= 2:
+                    and len(ctx.p.positional_args(n.value)) >= 1:
                 ax = next((dotted(k.value) for k in n.value.keywords
                            if k.arg == "axis"), None)
-                if ax is None and len(n.value.args) > axis_pos:
-                    ax = dotted(n.value.args[axis_pos])
+                pa = ctx.p.positional_args(n.value)
+                if len(pa) > axis_pos:
+                    ax = dotted(pa[axis_pos])
                 role = {"-1": "W", "-2": "Winv"}.get(ax)
                 if role is None or role in out:
                     return {}
@@ -488,8 +489,10 @@ def rule_pa1(ctx):
 
     def info(c):
         kw = {k.arg: dotted(k.value) for k in c.keywords}
-        return (dotted(c.args[1]) if len(c.args) > 1 else None,
-                kw.get("axis"), kw.get("inverse", "False"))
+        pa = ctx.p.positional_args(c)
+        return (dotted(pa[1]) if len(pa) > 1 else kw.get("permutation"),
+                dotted(pa[2]) if len(pa) > 2 else kw.get("axis"),
+                dotted(pa[3]) if len(pa) > 3 else kw.get("inverse", "False"))
     w, wi = info(calls["W"]), info(calls["Winv"])
     ok = w[0] == wi[0] and w[2] == wi[2] and {w[1], wi[1]} == {"-1", "-2"}
     if ok:
